@@ -54,8 +54,14 @@ class HGen:
             return f"({self.body(params, depth - 1, leafs, feats)} + {self.body(params, depth - 1, leafs, feats)})"
         if k < 0.55:
             return f"({self.body(params, depth - 1, leafs, feats)}, {self.body(params, depth - 1, leafs, feats)})"
+        if k < 0.62 and depth >= 2:
+            # curried form: two nested non-called lambdas, the helper parameter used in the innermost one
+            v1, v2 = r.choice(["y", "j", "e", "w"]), r.choice(["z", "j", "e", "x", "evt"])
+            if v1 != v2:
+                feats.add("two-deep-nested-lambdas")
+                return f"{p}.c{m}.Select(lambda {v1}: {v1}.d{m}.Select(lambda {v2}: {v2}.q + {v1}.r + {self.body([x for x in params if x not in (v1, v2)] or [v1], 0, [], feats)}))"
         if k < 0.8:
-            v = r.choice([p, "j", "j", f"v{m}", r.choice(params)])
+            v = r.choice([p, "j", "j", f"v{m}", r.choice(params), "e", "x", "w", "evt"])
             feats.add("nested-lambda-reusing-parameter" if v in params else ("nested-lambda-j" if v == "j" else "nested-lambda"))
             inner = [x for x in params if x != v] + [v]
             return f"{p}.c{m}.Select(lambda {v}: {self.body(inner, depth - 1, leafs, feats)})"
@@ -189,7 +195,7 @@ def run_file(ctx, rnd):
     top_inlinable = {h["name"] for h in helpers if not h["leaf"] and h["inlinable"]}
     for i, c in enumerate(cases):
         key = f"{c['text']}|{[h['text'] for h in helpers if h['name'] in c['text']]}"
-        nt = bool(set(c["feats"]) & {"bare-parameter", "constant", "nested-lambda-reusing-parameter", "nested-lambda-j", "nested-lambda", "calls-helper", "keyword-call", "reordered-keywords", "mixed-call", "call-site-in-nested-lambda"})
+        nt = bool(set(c["feats"]) & {"two-deep-nested-lambdas", "bare-parameter", "constant", "nested-lambda-reusing-parameter", "nested-lambda-j", "nested-lambda", "calls-helper", "keyword-call", "reordered-keywords", "mixed-call", "call-site-in-nested-lambda"})
         witness = {"lambda": c["text"], "helpers": [h["text"] for h in helpers if h["name"] + "(" in c["text"] or any(h["name"] + "(" in x["text"] for x in helpers if x["name"] + "(" in c["text"])], "features": c["feats"]}
         try:
             expected = probe.behaviour(getattr(m, f"py{i}")())
@@ -240,6 +246,12 @@ def sh(x): return x.jets.Select(lambda x: x.pt)
 def addy(x): return x.jets.Select(lambda y: x.w + y.pt)
 def two(x, y): return x.f(y)
 def outer(x): return two(x.a, x.b)
+def add3(a): return lambda y: lambda z: a * 100 + y * 10 + z
+def d7(ds): return ds.Select(lambda z: add3(z)(2)(3))
+def p7(): return lambda z: add3(z)(2)(3)
+def deep(a): return a.c.Select(lambda y: y.d.Select(lambda z: z.q + y.r + a.s))
+def d8(ds): return ds.Select(lambda z: deep(z.k))
+def p8(): return lambda z: deep(z.k)
 def d0(ds): return ds.Select(lambda e: ident(e.x))
 def d1(ds): return ds.Select(lambda e: const(e.x))
 def d2(ds): return ds.Select(lambda e: sh(e))
@@ -259,8 +271,8 @@ def p6(): return lambda e: e.jets.Select(lambda j: two(j, e))
 
 def directed(ctx):
     m = modgen.load(DIRECTED, "c05d")
-    env = {n: getattr(m, n) for n in ("ident", "const", "sh", "addy", "two", "outer")}
-    tags = ["bare-parameter", "constant-body", "nested-lambda-shadows-parameter", "argument-captured-by-inner-binder", "reordered-keywords", "helper-calls-helper", "call-in-nested-lambda"]
+    env = {n: getattr(m, n) for n in ("ident", "const", "sh", "addy", "two", "outer", "add3", "deep")}
+    tags = ["bare-parameter", "constant-body", "nested-lambda-shadows-parameter", "argument-captured-by-inner-binder", "reordered-keywords", "helper-calls-helper", "call-in-nested-lambda", "curried-two-deep-lambdas-argument-names-innermost", "two-deep-nested-lambdas-argument-names-innermost"]
     for i, tag in enumerate(tags):
         ctx.case("directed:" + tag, True)
         expected = probe.behaviour(getattr(m, f"p{i}")())
